@@ -245,7 +245,8 @@ def run_smt(case):
     spec = case["spec"]
     tmpdir = tempfile.mkdtemp(prefix="rtmon_c16s_")
     try:
-        for cfg in ({"optimizer": "incremental"}, {"optimizer": "optimize", "optimize_priority": "lex"}):
+        for cfg in ({"optimizer": "incremental"}, {"optimizer": "optimize", "optimize_priority": "lex"},
+                    {"optimizer": "incremental", "debug": True}, {"optimizer": "optimize", "optimize_priority": "lex", "debug": True}):
             if cfg["optimizer"] == "optimize" and not spec.get("objectives"):
                 continue
             ref = pr.run_solve(spec, {"solver": cfg})
@@ -255,8 +256,8 @@ def run_smt(case):
                 warnings.simplefilter("ignore")
                 b = bld.build(spec)
                 solver = ps.SchedulingSolver(problem=b.problem, max_time=30, **cfg)
-            path = os.path.join(tmpdir, f"p_{cfg['optimizer']}.smt2")
-            feats = {"optimizer": cfg["optimizer"]}
+            path = os.path.join(tmpdir, f"p_{cfg['optimizer']}_{bool(cfg.get('debug'))}.smt2")
+            feats = {"optimizer": cfg["optimizer"], "debug": bool(cfg.get("debug"))}
             try:
                 solver.export_to_smt2(path)
             except Exception as exc:  # pylint: disable=broad-except
@@ -308,6 +309,38 @@ def run_smt(case):
                 acc.count(acc.clauses, f"C16.smt2.model_admitted:{'T' if okb else back['outcome']}")
                 if back["outcome"] == "unsat":
                     acc.violation("C16.smt2.model_not_a_valid_schedule", "admitted-invalid", feats, {"external_model": cand})
+            # multi-step: what is exported after a solution has been excluded must exclude it too
+            if ext["status"] == "sat" and cfg == {"optimizer": "incremental"} and not spec.get("objectives"):
+                try:
+                    with warnings.catch_warnings():
+                        warnings.simplefilter("ignore")
+                        b2 = bld.build(spec)
+                        s2 = ps.SchedulingSolver(problem=b2.problem, max_time=30)
+                        s2.export_to_smt2(os.path.join(tmpdir, "step0.smt2"))
+                        sol1 = s2.solve()
+                        s2.export_to_smt2(os.path.join(tmpdir, "step1.smt2"))
+                        s2.find_another_solution()
+                        s2.export_to_smt2(os.path.join(tmpdir, "step2.smt2"))
+                    if sol1:
+                        with open(os.path.join(tmpdir, "step2.smt2")) as f2:
+                            t2 = f2.read()
+                        pins_txt = ""
+                        for tn, tsol in sol1.tasks.items():
+                            pins_txt += f"(assert (= {tn}_start {tsol.start if tsol.start >= 0 else '(- %d)' % -tsol.start}))\n"
+                            pins_txt += f"(assert (= {tn}_end {tsol.end if tsol.end >= 0 else '(- %d)' % -tsol.end}))\n"
+                            if tsol.optional:
+                                pins_txt += f"(assert (= {tn}_scheduled {'true' if tsol.scheduled else 'false'}))\n"
+                        t2 = t2.replace("(check-sat)", pins_txt + "(check-sat)")
+                        ext2 = rd.external_z3(t2)
+                        acc.executions += 1
+                        okx = ext2["status"] == "unsat"
+                        acc.count(acc.clauses, f"C16.smt2.export_after_exclusion:{'T' if okx else ext2['status']}")
+                        if ext2["status"] == "sat":
+                            acc.violation("C16.smt2.stale_export_after_find_another", "stale", feats,
+                                          {"excluded_schedule": {n: [t.start, t.end] for n, t in sol1.tasks.items()}})
+                except Exception as exc:  # pylint: disable=broad-except
+                    acc.violation("C16.smt2.exception", "exception", dict(feats, exc=type(exc).__name__, step="multi"),
+                                  {"msg": str(exc)[:300]})
             if acc.sample is None:
                 acc.sample = {"spec": spec, "config": cfg, "external_status": ext["status"], "library": ref["outcome"],
                               "external_values": ext["values"], "smt2_bytes": len(text)}
